@@ -56,6 +56,16 @@ func (obj Channel) Pop() slip.Object {
 	return <-obj
 }
 
+// Push a value onto the channel. Pushing to a closed channel is an error.
+func (obj Channel) Push(value slip.Object) {
+	defer func() {
+		if rec := recover(); rec != nil {
+			panic(slip.ErrorNew(slip.NewScope(), 0, "can not push to the closed channel %s", obj))
+		}
+	}()
+	obj <- value
+}
+
 // Close the channel. Closing a channel that is already closed is an error.
 func (obj Channel) Close() {
 	defer func() {
